@@ -42,7 +42,7 @@ class C08(Check):
     rule = ("E-in, differential (no reference model consulted): all operator/back-end combinations are asked the same "
             "(base, query) and every implication of the chain p<=Z<=W(rc2,z3)<=lex(rc2,z3), p<=c<=W is checked on the "
             "answers. Spaces: (i) structure representatives of <=4-subsets of the 24 literal conditionals over 3 atoms, "
-            "both modes, 72 literal queries; (ii) shipped corpora: birds/gen/AO knowledge bases with their query files, "
+            "both modes, 72 literal queries plus the reference-selected tie-rich type-level queries; (ii) shipped corpora: birds/gen/AO knowledge bases with their query files, "
             "the 484 two-atom representatives, random_large families 6_6..20_20 (quick: 3 bases per family chosen by the "
             "seed) with their complete query files plus all 48 literal queries (l|l') over the first four atoms, strict "
             "and extended mode. distinct_nontrivial = distinct (base, query, mode, pair) where the inclusion is strict "
@@ -60,8 +60,7 @@ class C08(Check):
             reps, st = scopes.structural_scope(scopes.L3, scopes.SIG3, 4, want, seed + 1, 1)
             self.stats["B3(4)-%s" % ("ext" if weakly else "strict")] = st
             for conds, cls in reps:
-                out.append(("small", opsem.make_task(scopes.SIG3, conds, weakly, EXT if weakly else STRICT,
-                                                     ("list", [list(q) for q in scopes.literal_queries3()]), cls=cls,
+                out.append(("small", opsem.make_task(scopes.SIG3, conds, weakly, EXT if weakly else STRICT, ("tie",), cls=cls,
                                                      scope="B3(4)")))
         for bbp, qp in corpus.named_bases():
             out.append(("file", bbp, qp, False))
